@@ -380,7 +380,12 @@ pub fn table_pnmsg(dir: &str, tier: &str, seed: u64, per: usize) -> (usize, u64)
         for ord in 0..2 {
             for fac in 0..2 {
                 // all numbers x boundary values (x channel sample)
-                let chans: Vec<i64> = if full { vec![0, 5, 15] } else { vec![r.below(16) as i64] };
+                // channels with a meaning of their own (MPE zone managers 0 / 15, GM drum channel 9) and another
+                let chans: Vec<i64> = if full {
+                    vec![0, 9, 15, 1 + r.below(8) as i64]
+                } else {
+                    vec![[0i64, 9, 15][r.below(3) as usize]]
+                };
                 for &ch in &chans {
                     let step = if full { 1 } else { 3 };
                     for num in (r.below(step as u64) as i64..16384).step_by(step) {
@@ -395,6 +400,14 @@ pub fn table_pnmsg(dir: &str, tier: &str, seed: u64, per: usize) -> (usize, u64)
                     let step = if full || all.len() <= 128 { 1 } else { 5 };
                     for &v in all.iter().step_by(step) {
                         w.push(&pnmsg_row(ctor, r.below(16) as i64, num, v, ord, fac));
+                    }
+                }
+                // parameter numbers with a meaning of their own on every channel
+                for ch in 0..16 {
+                    for &num in &[1i64, 2, 3, 4, 5, 6, 7, 120, 129, 255, 256, 767, 768, 8192, 16256, 16382] {
+                        for &v in vals(ctor, false).iter() {
+                            w.push(&pnmsg_row(ctor, ch, num, v, ord, fac));
+                        }
                     }
                 }
                 // all channels
